@@ -178,7 +178,7 @@ def oracle(cfg):
 
 
 def configurations(tier):
-    vals = (0, 7, 0xFFFFFF)
+    vals = (0, 1, 7, 0xFFFFFE, 0xFFFFFF)        # both ends of the search space with their neighbours, and one inside
     maxn = 3
     shorts_dom = (None, 0, 1)
     avail_dom = (None, (0, 1, 2), (1,), (), (5, 0))
@@ -187,8 +187,12 @@ def configurations(tier):
         draw_dom = []
         for i in range(n):
             # two arbitrary draws, then a value unique to the unit (clashes eventually resolve)
-            draw_dom.append([(a, b, 1000 + i) for a in vals for b in vals] if (tier == "thorough" or n <= 2)
-                            else [(a, b, 1000 + i) for a in (0, 7) for b in (7, 0xFFFFFF)])
+            if tier == "thorough" and n <= 2:
+                draw_dom.append([(a, b, 1000 + i) for a in vals for b in vals])
+            elif tier == "thorough" or n <= 2:
+                draw_dom.append([(a, b, 1000 + i) for a in vals for b in (7, 0xFFFFFF)])
+            else:
+                draw_dom.append([(a, b, 1000 + i) for a in (0, 7) for b in (7, 0xFFFFFF)])
         for shorts in itertools.product(shorts_dom, repeat=n):
             for draws in itertools.product(*draw_dom):
                 for available in avail_dom:
@@ -563,10 +567,10 @@ def commissioning_units():
         r_avail = ("available_addresses", is_list)
         r_fin = ("finished", lambda v: v is False)
         r_low = ("low", lambda v: isinstance(v, int) and not isinstance(v, bool) and v == 0)
-        loops = {(COMM, 0): LoopSpec("scan-in-use", scan_inv, scan_havoc, roles={"avail": r_avail}),
-                 (COMM, 1): LoopSpec("rounds", round_inv, round_havoc, roles={"avail": r_avail, "finished": r_fin}),
+        loops = {(COMM, 0): LoopSpec("scan-in-use", scan_inv, scan_havoc, roles={"avail": r_avail}, anchor=("QueryControlGearPresent",)),
+                 (COMM, 1): LoopSpec("rounds", round_inv, round_havoc, roles={"avail": r_avail, "finished": r_fin}, anchor=("Randomise",)),
                  (COMM, 2): LoopSpec("units", unit_inv, unit_havoc,
-                                     roles={"avail": r_avail, "finished": r_fin, "low": r_low})}
+                                     roles={"avail": r_avail, "finished": r_fin, "low": r_low}, anchor=("Withdraw",))}
         name = "C07/commissioning/readdress=%s/dry_run=%s/%s" % (readdress, dry_run, "given-list" if given else "all-64")
         out.append(Unit(name, "C07", None, None, use=USE + [FIND], width=72, kind="custom", runner=runner, loops=loops,
                         max_paths=200000))
@@ -597,7 +601,7 @@ def extra_checks(tier, seed):
         res.append({"name": "C07/bounded/commissioning-small-populations", "status": "discharged", "cases": n,
                     "kind": "bounded-exhaustive", "seconds": time.time() - t0,
                     "detail": "all populations of <= 3 units, shorts {MASK,0,1}, 5 permitted sets, both modes, dry run on/off, "
-                              "two arbitrary draws over {0,7,0xFFFFFF} then distinct"})
+                              "a first draw over {0,1,7,0xFFFFFE,0xFFFFFF}, a second over {7,0xFFFFFF} (thorough, <= 2 units: both over all five), then distinct"})
     for kind, items in groups.items():
         items.sort(key=lambda it: (len(it[0][0]), repr(it[0])))
         cfg, why = items[0]
@@ -623,7 +627,7 @@ META = {
                "all four combinations of readdress / dry_run, permitted list given or defaulted to all 64",
                "Commissioning end state (BOUNDED, not proved)": "populations of 0..3 units, pre-existing short addresses {MASK,0,1}, permitted "
                "sets {all, (0,1,2), (1), (), (5,0)}, both readdress modes, dry run on/off, two arbitrary draws per unit over "
-               "{0,7,0xFFFFFF} followed by a distinct value, faulty (non-storing) units"},
+               "{0,1,7,0xFFFFFE,0xFFFFFF} followed by a distinct value, faulty (non-storing) units"},
     "assumptions": [
         "ASSUMED unit contract contracts/units/addressing.py (abstract form for the proof, executable form for the bounded part)",
         "ASSUMED contract of the Python list `available_addresses` restricted to one tracked element (AddrList: in / remove / "
